@@ -5,6 +5,7 @@ pub mod c02_net;
 pub mod c11;
 pub mod c12;
 pub mod c13;
+pub mod c14;
 pub mod c18;
 pub mod stream_model;
 
@@ -80,6 +81,20 @@ pub fn all() -> Vec<PropDef> {
             ],
             run: c13::run,
             replay: c13::replay,
+            child: None,
+        },
+        PropDef {
+            id: "C14",
+            level: "exploration",
+            rule: c14::RULE,
+            assumptions: &[
+                "registration ops are generated only where the documentation defines the outcome (parents missing or objects; never a bare root replacement)",
+                "non-canonical array indices (leading zeros, '+') met against an array are treated as unspecified: any outcome accepted, model resynchronised",
+                "\"\" and \"/\" both address the root (docs/protocol.md), so the single empty reference token is not generated at top level",
+                "the content of write acknowledgements and of reads at a callable's pointer is not pinned",
+            ],
+            run: c14::run,
+            replay: c14::replay,
             child: None,
         },
         PropDef {
